@@ -171,6 +171,45 @@ func (c *ctx) strExpr(e ast.Expr) string {
 		if ce, ok := isFunc(e, "string"); ok && len(ce.Args) == 1 {
 			return c.strExpr(ce.Args[0])
 		}
+		if ce, ok := isCall(e, "strings", "TrimSuffix"); ok && len(ce.Args) == 2 {
+			return "(ETrimSuffix " + c.strExpr(ce.Args[0]) + " " + c.strExpr(ce.Args[1]) + ")"
+		}
+		if ce, ok := isCall(e, "strconv", "FormatFloat"); ok && len(ce.Args) == 4 {
+			tv := c.p.Info.Types[ce.Args[1]]
+			if tv.Value == nil || tv.Value.Kind() != constant.Int {
+				fail(c.p, e, "FormatFloat with a non-constant format byte")
+			}
+			if fb, _ := constant.Int64Val(tv.Value); fb != 'f' {
+				fail(c.p, e, "FormatFloat format %q is not modelled (only 'f')", rune(fb))
+			}
+			prec, ok1 := c.constInt(ce.Args[2])
+			bits, ok2 := c.constInt(ce.Args[3])
+			if !ok1 || !ok2 || bits != "64" || strings.HasPrefix(prec, "(") {
+				fail(c.p, e, "FormatFloat precision/bit size not modelled: %s", render(c.p, e))
+			}
+			return "(EFixed " + c.strExpr(ce.Args[0]) + " " + prec + ")"
+		}
+		// a call of an unexported package-level helper whose body is a single return: inline it
+		if id, ok := x.Fun.(*ast.Ident); ok && !ast.IsExported(id.Name) {
+			if fd := c.decls[id.Name]; fd != nil && fd.Recv == nil && fd.Body != nil && len(fd.Body.List) == 1 {
+				if rs, ok := fd.Body.List[0].(*ast.ReturnStmt); ok && len(rs.Results) == 1 {
+					var names []string
+					for _, f := range fd.Type.Params.List {
+						for _, n := range f.Names {
+							names = append(names, n.Name)
+						}
+					}
+					if len(names) != len(x.Args) {
+						fail(c.p, e, "helper %s arity", id.Name)
+					}
+					inner := &ctx{p: c.p, decls: c.decls, params: map[string]int{}, env: map[string]sym{}}
+					for i, n := range names {
+						inner.env[n] = sym{kind: "str", text: c.strExpr(x.Args[i])}
+					}
+					return inner.strExpr(rs.Results[0])
+				}
+			}
+		}
 		// o.t.UTC().Format(layout) / o.t.Format(layout)
 		if c.inOpt {
 			if se, ok := x.Fun.(*ast.SelectorExpr); ok && se.Sel.Name == "Format" && len(x.Args) == 1 {
